@@ -186,6 +186,16 @@ def coq_props(pid):
             'log': o[-3000:] if not ok else '', 'wall_s': round(dt, 1)}
 
 
+def coqchk(pid):
+    """thorough tier: re-check the compiled property file and everything it depends on with the
+    independent checker; returns (ok, axioms summary)."""
+    rc, o, dt = run(['coqchk', '-silent', '-o', '-Q', 'theories', 'GT', '-Q', 'gen', 'GTgen', '-Q', 'props', 'GTprops', 'GTprops.' + pid],
+                    cwd=COQ, timeout=3000)
+    m = re.search(r'\* Axioms:\s*(.*?)\n\s*\n', o, re.S)
+    axioms = m.group(1).strip() if m else '?'
+    return rc == 0 and axioms == '<none>', axioms, round(dt, 1), o[-1500:]
+
+
 def statements(pid, limit=6):
     """theorem statements of props/<pid>.v (for the evidence samples)."""
     text = open(os.path.join(COQ, 'props', pid + '.v')).read()
@@ -449,6 +459,9 @@ def run_sim(family, seed, count, scenario_file=None, keep_trace=False):
                 sigs[cur] = [kvs.get('mode', '?').strip(), 'rev0' if (kvs.get('cdis') == '1' or kvs.get('sdis') == '1' or kvs.get('cleg') == '1' or kvs.get('sleg') == '1') else 'fc', raw or 'real', set()]
             elif line.startswith('E ') and ' op=cancel ' in line and cur in sigs:
                 sigs[cur][3].add('cancel')
+            elif line.startswith('E ') and ' carrier-marshal-error ' in line and cur in sigs:
+                sigs[cur][3].add('marshalerr')
+                ended[cur] = True
             elif line.startswith('E ') and ' stim kind=' in line:
                 m = re.search(r'stim kind=(\w+)', line)
                 if m and m.group(1) in ('fail', 'chclose', 'ctxend', 'stop', 'rawend', 'shutdown'):
@@ -603,6 +616,13 @@ class Verdict:
         self.traces = 0
         self.assumptions = []
         self.notes = []
+
+    def add_coqchk(self):
+        ok, axioms, dt, log = coqchk(self.pid)
+        self.cov['coqchk'] = {'ok': ok, 'axioms': axioms, 'wall_s': dt}
+        if not ok:
+            self.broken.append({'kind': 'proof', 'what': 'coqchk does not accept props/%s.vo and its dependencies (or reports axioms)' % self.pid,
+                                'detail': log})
 
     def add_proofs(self, pr, extra_obligations=0):
         self.obligations += len(pr['theorems']) + extra_obligations
